@@ -388,6 +388,42 @@ func propC06(c *Ctx) {
 			}
 		}
 	}
+	// shifts follow the host's integer semantics for every non-negative count: counts of 64 and more (also those whose low 5, 6
+	// or 32 bits are zero) shift everything out
+	for _, a := range all {
+		if a.Type() != variants.Integer && a.Type() != variants.Long {
+			continue
+		}
+		var av int64
+		if a.Type() == variants.Long {
+			av = a.AsLong()
+		} else {
+			av = int64(a.AsInteger())
+		}
+		for _, n := range []int64{0, 1, 5, 31, 32, 33, 62, 63, 64, 65, 127, 128, 255, 256, 1 << 16, 1 << 31, 1<<32 - 1, 1 << 32, 1<<32 + 1, 1<<32 + 63, 1 << 33, 1 << 62, math.MaxInt64} {
+			for _, bv := range []*variants.Variant{vLong(n), vInt(int(n))} {
+				for _, name := range []string{"lsh", "rsh"} {
+					got := runOpCase(c, "u", opIndex(name), a, bv)
+					var w int64
+					switch {
+					case name == "lsh" && n < 64:
+						w = av << uint(n)
+					case name == "rsh" && n < 64:
+						w = av >> uint(n)
+					case name == "rsh" && av < 0:
+						w = -1
+					}
+					want := "ok l" + strconv.FormatInt(w, 10)
+					if a.Type() == variants.Integer {
+						want = "ok i" + strconv.FormatInt(w, 10)
+					}
+					if got != want {
+						c.fail(Failure{Kind: "oracle", Op: fmt.Sprintf("op u %s %s %s", name, encArg(a), encArg(bv)), Impl: got, Note: fmt.Sprintf("%d %s %d in the first operand's integer arithmetic is %s", av, name, n, want)})
+					}
+				}
+			}
+		}
+	}
 	// unary
 	for _, a := range all {
 		for _, name := range []string{"not", "neg"} {
@@ -412,6 +448,27 @@ func propC06(c *Ctx) {
 
 func replayC06(c *Ctx, op string) {
 	f := strings.Fields(op)
+	if len(f) == 5 && f[0] == "cellconv" {
+		v1, v2 := decVariant(f[2]), decVariant(f[3])
+		var t int
+		fmt.Sscanf(f[4], "%d", &t)
+		if v1 != nil && v2 != nil {
+			mg := mgrOf(f[1])
+			cell := variants.EmptyVariant()
+			got := safeCall(func() string {
+				cell.Assign(v1)
+				mg.Convert(cell, variants.VariantType(t))
+				cell.Assign(v2)
+				return outcome(mg.Convert(cell, variants.VariantType(t)))
+			})
+			want := safeCall(func() string { return outcome(mgrOf(f[1]).Convert(v2.Clone(), variants.VariantType(t))) })
+			c.record(op, true)
+			if got != want {
+				c.fail(Failure{Kind: "oracle", Op: op, Impl: got, Spec: want, Note: "re-conversion of a re-assigned Variant on the same manager differs from a new manager on a new Variant"})
+			}
+		}
+		return
+	}
 	if len(f) == 5 && f[0] == "op" {
 		a, b := decVariant(f[3]), decVariant(f[4])
 		if a != nil && b != nil && opIndex(f[2]) >= 0 {
@@ -673,6 +730,38 @@ func propC07(c *Ctx) {
 			}
 		}
 		roundTrips(c, a)
+	}
+	// a Variant is a mutable cell and a manager a long-lived object: converting the same cell again after its content was
+	// replaced, on the same manager, gives what a new manager gives for a new Variant holding the new content
+	base := pool["str"]
+	base = append(base, pool["int"]...)
+	base = append(base, pool["bool"]...)
+	base = append(base, pool["double"]...)
+	for _, m := range []string{"u", "s"} {
+		mg := mgrOf(m)
+		cell := variants.EmptyVariant()
+		for i, v1 := range base {
+			for j, v2 := range base {
+				if !c.Thorough && (i*31+j*17)%5 != 0 && !(v1.Type() == variants.String && v2.Type() == variants.String) {
+					continue
+				}
+				for _, t := range []variants.VariantType{variants.Long, variants.Integer, variants.Boolean, variants.Double, variants.String, variants.Float} {
+					op := fmt.Sprintf("cellconv %s %s %s %d", m, encArg(v1), encArg(v2), int(t))
+					got := safeCall(func() string {
+						cell.Assign(v1)
+						mg.Convert(cell, t)
+						cell.Assign(v2)
+						return outcome(mg.Convert(cell, t))
+					})
+					want := safeCall(func() string { return outcome(mgrOf(m).Convert(v2.Clone(), t)) })
+					c.record(op, v1.Type() == v2.Type())
+					c.count("cell-reconversion")
+					if got != want {
+						c.fail(Failure{Kind: "oracle", Op: op, Impl: got, Spec: want, Note: fmt.Sprintf("a Variant that held %s was converted, then assigned %s and converted again on the same manager: got %s; a new manager gives %s for a new Variant holding %s", encArg(v1), encArg(v2), got, want, encArg(v2))})
+					}
+				}
+			}
+		}
 	}
 	c.Notes = append(c.Notes, fmt.Sprintf("every value of the boundary pool (10 types) plus %d random integers/longs/doubles/floats/decimal strings/time spans x 11 target types x 2 managers; round-trip chains integer<->long, int/long<->double within 2^53, int/long<->time span, int/long<->date-time, int/long/boolean<->string, float->double, boolean<->numeric; host-dependent texts (float formatting, date parsing) are produced by the model as host terms and not compared", 6*n))
 }
